@@ -171,8 +171,18 @@ func (x *Exec) afterCallAt(f *Frame, i *ssa.Call) {
 		return
 	}
 	name, k := x.staticCallOrdinal(f, i)
+	x.runGhostUpdates(f, name, k, false)
+	x.afterCallNamed(f, name, k)
+}
+
+// runGhostUpdates performs the ghost assignments anchored at (anchor, k). lenient: an update whose
+// expression names a local that does not exist on this path is skipped (used at exits).
+func (x *Exec) runGhostUpdates(f *Frame, anchor string, k int, lenient bool) {
+	if !f.top || x.con == nil {
+		return
+	}
 	for _, gu := range x.con.GhostUpd {
-		if gu.Callee != name || gu.K != k {
+		if gu.Callee != anchor || gu.K != k {
 			continue
 		}
 		g := x.ghostVar(gu.Name)
@@ -180,14 +190,29 @@ func (x *Exec) afterCallAt(f *Frame, i *ssa.Call) {
 			x.fail("ghost update of undeclared ghost %s", gu.Name)
 		}
 		env := x.newEnv(x.localVars(f), x.cur, x.entry)
-		v := env.Tr(gu.Value)
+		var v TV
+		ok := true
+		func() {
+			defer func() {
+				if r := recover(); r != nil {
+					if _, isSpec := r.(specErr); isSpec && lenient {
+						ok = false
+						return
+					}
+					panic(r)
+				}
+			}()
+			v = env.Tr(gu.Value)
+		}()
+		if !ok {
+			continue
+		}
 		gt := x.parseSpecType(g.Type, token.NoPos)
 		if v.T.Sort != gt.sort {
 			x.fail("ghost update %s: value of sort %s, declared %s", gu.Src, v.T.Sort, gt.sort)
 		}
 		x.cur.heaps[x.ghostHeap(gu.Name)] = x.b.Def("gv_"+gu.Name, v.T)
 	}
-	x.afterCallNamed(f, name, k)
 }
 
 // afterCall proves and then assumes the contract's mid-function assertions placed after this call.
